@@ -524,6 +524,43 @@ for ci in range(nchain):
                             coefficient_index=j_, auto=complex(np.asarray(ca)[i]), explicit=complex(np.asarray(ce)[i]),
                             predicate="default refracted angles = Snell"), True)
 
+# HISTORY through a shallow copy: a copy.copy() of a Material is edited (a warmer couplant, another alloy); the ORIGINAL must
+# keep answering with its own constants
+import copy as _copy
+for hi_ in range(4 if Q else 30):
+    mat = mats[int(rng.integers(0, len(mats)))]
+    rho_f, v_f, rho_s, v_l, v_t = mat
+    fluid = arim.Material(longitudinal_vel=v_f, density=rho_f, state_of_matter="liquid")
+    solid = arim.Material(longitudinal_vel=v_l, transverse_vel=v_t, density=rho_s, state_of_matter="solid")
+    warm, alloy = _copy.copy(fluid), _copy.copy(solid)
+    warm.longitudinal_vel, warm.density = v_f * 1.07, rho_f * 0.9
+    alloy.longitudinal_vel, alloy.transverse_vel, alloy.density = v_l * 0.93, v_t * 1.05, rho_s * 1.1
+    al_ = np.array([0.0, 0.05, 0.1])
+    for helper, kind, m_in, m_out, unit in (("tr", "fs", "L", "L", "stress"), ("tr", "fs", "L", "T", "displacement"),
+                                             ("tr", "sf", "T", "L", "displacement"), ("rf", "sf", "L", "T", "displacement")):
+        if help_err.get(f"{helper}:{kind}:{m_in}{m_out}", "value") != "value":
+            continue
+        m_inc, m_oth = (fluid, solid) if kind == "fs" else (solid, fluid)
+        kw = dict(interface_kind=KINDS[kind], material_inc=m_inc, mode_inc=MODES[m_in], mode_out=MODES[m_out], angles_inc=al_.copy(),
+                  force_complex=True, unit=unit)
+        got = np.asarray(model.transmission_at_interface(material_out=m_oth, **kw) if helper == "tr"
+                         else model.reflection_at_interface(material_against=m_oth, **kw))
+        want = expected_helper(helper, kind, m_in, m_out, unit, al_.astype(complex), mat)
+        n_eval += len(al_)
+        chk.count(material_objects="original of an edited shallow copy")
+        if not np.allclose(got, want, rtol=1e-12, atol=1e-13):
+            report(f"select-copy:{helper}:{kind}:{m_in}{m_out}:{unit}", "after a copy.copy() of the materials was edited, the helper called with the "
+                   "ORIGINAL materials no longer returns the coefficient of the original constants",
+                   dict(predicate="at_interface_select", helper=helper, kind=kind, mode_inc=m_in, mode_out=m_out, unit=unit, material=mat,
+                        got=[complex(x) for x in got], expected=[complex(x) for x in want]), True)
+# the two directions of an interface: reversing the kind twice is the identity, and swaps fluid_solid / solid_fluid
+for k_, r_ in ((InterfaceKind.fluid_solid, InterfaceKind.solid_fluid), (InterfaceKind.solid_fluid, InterfaceKind.fluid_solid)):
+    n_eval += 1
+    if k_.reverse() is not r_:
+        report("kind-reverse", f"InterfaceKind.{k_.name}.reverse() is {k_.reverse()!r}, not {r_.name}: the opposite direction of a "
+               "solid-to-fluid transmission can no longer be asked for (Stokes relations)",
+               dict(predicate="InterfaceKind.reverse swaps the two kinds", kind=k_.name, got=str(k_.reverse())), True)
+
 # large angle arrays (every ray of a big TFM grid in one call): the helper is a pointwise function of the
 # angle, so the answer for each entry of a large array is the selected coefficient for that entry
 nlarge = 2 if Q else 12
